@@ -335,7 +335,12 @@ func (sess *hopSession) newAuthGrantTube() (*tubes.Reliable, error) {
 func (sess *hopSession) startPF(ch *tubes.Reliable) {
 	// TODO find a way of selecting a remote forwarding
 	// or a local forwarding
-	portforwarding.StartPFServer(ch, &sess.forward, sess.tubeMuxer)
+	var authorize func(int) error
+	if sess.usingAuthGrant {
+		// a session admitted through grants needs a port forwarding grant
+		authorize = sess.checkPF
+	}
+	portforwarding.StartPFServerAuthorized(ch, &sess.forward, sess.tubeMuxer, authorize)
 }
 
 func (sess *hopSession) handlePF(ch tubes.Tube) {
